@@ -110,6 +110,7 @@ class Monitor:
         self.q = {}            # prefix -> list of Entry, front first (push order)
         self.ord = {}          # ordinary key repr -> (value, exp)
         self.seq = 0
+        self.tainted = set()   # prefixes whose key assignment / physical rows were disturbed by a prefix-extension interference (D11)
         self.viol = []         # (sig, desc, call index)
         self.stats = {'expired_heads_dropped': 0, 'expiry_instant_hits': 0, 'deliveries': 0, 'defaults': 0, 'leaks': 0,
                       'push_get_checked': 0, 'neighbour_checked': 0, 'start_checked': 0, 'ordinary_checked': 0}
@@ -195,10 +196,12 @@ class Monitor:
         if prev is not None and not prev.live(now):
             self.q[prev.prefix].remove(prev)      # expired, removed by _cull; its key may be given out again
             prev = None
-        if prev is not None:
+        if prev is not None and prefix not in self.tainted:
             self.flag('push_key_reused', 'push(prefix=%r) returned key %r which still identifies another queued item' % (prefix, key), i)
         quiet = not any(self.q.get(q) for q in self.q if related(prefix, q))
-        if n is not None and quiet:
+        if not quiet:
+            self.tainted.add(prefix)
+        if n is not None and quiet and prefix not in self.tainted:
             if not l:
                 if not any(self.q.values()):
                     self.stats['start_checked'] += 1
@@ -233,7 +236,7 @@ class Monitor:
         exp_e = self.next_live(prefix, side, now, drop=True)
         if res == 'default':
             self.stats['defaults'] += 1
-            if exp_e is not None:
+            if exp_e is not None and prefix not in self.tainted:
                 self.flag('item_lost', '%s(prefix=%r, side=%s) returned the default although %r is queued' % (op, prefix, side, exp_e.key), i)
             return
         (k, v), et, tag = res
@@ -252,6 +255,7 @@ class Monitor:
         if not got.live(now):
             self.flag('expired_delivered', '%s(prefix=%r) delivered %r at now=%r, expire_time=%r' % (op, prefix, k, now, got.exp), i)
         if got.prefix != prefix:
+            self.tainted.add(prefix)
             if related(prefix, got.prefix):
                 self.stats['leaks'] += 1
                 self.flag('prefix_extension_leak', '%s(prefix=%r) returned %r, an item pushed under prefix %r' % (op, prefix, k, got.prefix), i)
@@ -260,7 +264,7 @@ class Monitor:
             if op == 'pull':
                 self.q[got.prefix].remove(got)
             return
-        if got is not exp_e:
+        if got is not exp_e and prefix not in self.tainted:
             self.flag('queue_order', '%s(prefix=%r, side=%s) returned %r, the next item of that side is %r'
                       % (op, prefix, side, k, None if exp_e is None else exp_e.key), i)
         if not val.same(v, got.val) or et != got.exp or tag != got.tag:
